@@ -390,4 +390,17 @@ func genC11(tier string, r *rng) {
 		}
 	}
 	run(fmt.Sprintf("dbgdl - %s %s 0 dialfail", hx([]byte("ws://example.com/x")), hx(resps[0])))
+	// both sides fail when the 101 cannot be written: the HTTP upgrader does not report a handshake the client never saw
+	for _, cfg := range []string{"-", "proto:" + hx([]byte("b")) + "|" + hx([]byte("c")) + ",neg:0;0;0;0"} {
+		run(fmt.Sprintf("hupw %s %s", cfg, hx(reqs[0])))
+		run(fmt.Sprintf("hupw %s %s", cfg, hx(reqs[2])))
+	}
+	// a server that answers an offered extension with parameters of its own: the outcome is the answer, and the
+	// SAME Dialer value offers what it was configured with when it is used again (the dl op dials twice)
+	for _, ans := range []string{" permessage-deflate; server_no_context_takeover", " permessage-deflate; client_max_window_bits=10; server_max_window_bits=9", " permessage-deflate"} {
+		for _, dc := range []string{"ext@" + pmd + ":" + hx([]byte("client_max_window_bits")) + "=", "ext@" + hx([]byte("x-foo")) + ":" + hx([]byte("k")) + "=" + hx([]byte("v")) + "|" + pmd + ":"} {
+			rs := buildResp(ok101, append(append([]hdr{}, rb...), hdr{"Sec-WebSocket-Extensions", ans}), "\r\n", nil)
+			run(fmt.Sprintf("dl %s %s %s 0 E", dc, hx([]byte("ws://example.com/x")), hx(rs)))
+		}
+	}
 }
